@@ -21,6 +21,8 @@ an alias of an existing one:
   (except filling md5 caches, which are not content).
 -/
 import SmVerif.Model.MinHash
+import SmVerif.Model.SeqToHashes
+import SmVerif.Model.Murmur3
 
 namespace Sm.Own
 
@@ -83,6 +85,41 @@ def Heap.mutate (hp : Heap) (h : Nat) (f : MH → Except MH.Err MH) : Heap × Re
         | .error e => (hp, .err (errName e))
         | .ok v => ({ hp with cells := hp.cells.set c (Cell.mk v false) }, .ok)
 
+/-- a mutator that can fail half-way (`add_sequence`: every hash before the first invalid k-mer HAS been added):
+    refused on a frozen cell, otherwise rewrites that one cell with whatever `f` got to -/
+def Heap.mutateP (hp : Heap) (h : Nat) (f : MH → MH × Res) : Heap × Res :=
+  match hp.cid h with
+  | none => (hp, .bad)
+  | some c =>
+    match hp.cells[c]? with
+    | none => (hp, .bad)
+    | some cell =>
+      if cell.frozen then (hp, .err "TypeError")
+      else
+        let r := f cell.val
+        ({ hp with cells := hp.cells.set c (Cell.mk r.1 false) }, r.2)
+
+def seqHashFn (m : MH) : Seq.HashFn :=
+  if m.hf == 2 then .protein else if m.hf == 3 then .dayhoff else if m.hf == 4 then .hp else .dna
+
+def seqPyK (m : MH) : Nat := if m.hf == 1 then m.ksize else m.ksize / 3
+
+def seqRes : Option Seq.Py.PyErr → Res
+  | none => .ok
+  | some .valueError => .err "ValueError"
+  | some .assertionError => .err "AssertionError"
+  | some .panic => .err "Panic"
+
+/-- `MinHash.add_sequence(seq, force)` (and `add_kmer`, which checks the length and calls it) -/
+def addSeqMH (m : MH) (seq : List Nat) (force : Bool) : MH × Res :=
+  let r := Seq.Py.addSequence (Murmur3.hashNat m.seed) (seqHashFn m) (seqPyK m) seq force
+  (m.addMany r.1, seqRes r.2)
+
+/-- `MinHash.add_protein(seq)` -/
+def addProtMH (m : MH) (seq : List Nat) : MH × Res :=
+  let r := Seq.Py.addProtein (Murmur3.hashNat m.seed) (seqHashFn m) (seqPyK m) seq
+  (m.addMany r.1, seqRes r.2)
+
 /-- an operation that returns a new object bound to `r` -/
 def Heap.fresh (hp : Heap) (r : Nat) (x : Except MH.Err MH) (frozen : Bool) : Heap × Res :=
   match x with
@@ -101,6 +138,8 @@ inductive Op where
   | merge (h g : Nat)
   | setAbundances (h : Nat) (ps : List (Nat × Nat)) (clear : Bool)
   | setTrack (h : Nat) (b : Bool)
+  | addSeq (h : Nat) (seq : List Nat) (force : Bool)
+  | addProt (h : Nat) (seq : List Nat)
   | intoFrozen (h : Nat)
   -- operations returning an object
   | toMutable (r h : Nat)
@@ -138,6 +177,8 @@ def step (hp : Heap) : Op → Heap × Res
     match hp.cell h with
     | some c => if c.val.trackAbundance = b then (hp, .ok) else hp.mutate h (fun s => setTrackMH s b)
     | none => (hp, .bad)
+  | .addSeq h seq force => hp.mutateP h (fun s => addSeqMH s seq force)
+  | .addProt h seq => hp.mutateP h (fun s => addProtMH s seq)
   | .intoFrozen h =>
     match hp.cid h, hp.cell h with
     | some c, some cell => ({ hp with cells := hp.cells.set c (Cell.mk cell.val true) }, .ok)
@@ -194,12 +235,12 @@ def content (c : Cell) : (Nat × Nat × List Nat × Option (List Nat) × Bool) :
 
 def isMutator : Op → Bool
   | .add .. | .addAb .. | .addMany .. | .removeMany .. | .clear .. | .merge .. | .setAbundances ..
-  | .setTrack .. => true
+  | .setTrack .. | .addSeq .. | .addProt .. => true
   | _ => false
 
 def receiver : Op → Option Nat
   | .add h _ | .addAb h _ _ | .addMany h _ | .removeMany h _ | .clear h | .merge h _
-  | .setAbundances h _ _ | .setTrack h _ | .intoFrozen h => some h
+  | .setAbundances h _ _ | .setTrack h _ | .intoFrozen h | .addSeq h _ _ | .addProt h _ => some h
   | _ => none
 
 end Sm.Own
